@@ -371,7 +371,7 @@ impl C08 {
                 }
             }
             let ai = rng.below(model.areas.len() as u64) as usize;
-            let op = rng.below(13);
+            let op = rng.below(14);
             let before = ax.verif_areas();
             counter += 1;
             let desc: String;
@@ -530,6 +530,43 @@ impl C08 {
                         failure = Some(("resize-without-collision-failed".into(), res.describe()));
                     } else {
                         model.areas[ai].data.resize(new_len as usize, 0);
+                    }
+                }
+                13 => {
+                    // an area that shares at least one address with an existing non-empty one must be refused: if both
+                    // existed, the same address would have two stores and "a read returns the bytes most recently
+                    // written" could not hold. Shapes: enclosing, inside, overlapping below / above, identical.
+                    let a = model.areas[ai].clone();
+                    let al = a.data.len() as u64;
+                    if al == 0 || a.start < 0x1000 || a.end() + 0x1000 > 1u128 << 64 {
+                        continue;
+                    }
+                    let (s0, l0) = match rng.below(5) {
+                        0 => (a.start - rng.range(1, 0x800), al + rng.range(1, 0x800) + 0x800),
+                        1 => {
+                            let off = rng.below(al);
+                            (a.start + off, rng.range(1, al - off))
+                        }
+                        2 => (a.start - rng.range(1, 0x800), 0x800 + rng.range(1, al)),
+                        3 => {
+                            let off = rng.below(al);
+                            (a.start + off, al - off + rng.range(1, 0x800))
+                        }
+                        _ => (a.start, al),
+                    };
+                    // (shape 2 must really reach into the area)
+                    if (s0 as u128 + l0 as u128) <= a.start as u128 || s0 as u128 >= a.end() {
+                        continue;
+                    }
+                    cls = AddrClass::Inside;
+                    opname = "mem_init_zero(overlapping)";
+                    desc = format!("mem_init_zero({:#x}, {:#x}) overlapping [{:#x},+{:#x})", s0, l0, a.start, al);
+                    let res = call(|| ax.mem_init_zero(s0, l0));
+                    expect_ok = Some(false);
+                    if res.is_panic() {
+                        failure = Some((format!("panic:{}", res.panic_key()), res.describe()));
+                    } else if res.is_ok() {
+                        failure = Some(("overlapping-area-accepted".into(), "two areas now hold the same addresses".into()));
                     }
                 }
                 _ => {
